@@ -38,6 +38,16 @@ TRUSTED = [
     "are C08 operations; here they are exercised only differentially (leg C)",
     "NumPy is the reference for leg C; dtype and float behaviour are outside the theorems",
 ]
+# normalised-AST hashes of the hand-modelled functions on the tree the model was written against.  A changed hash is
+# not a verdict: it is reported as source drift and switches the quick box to its exhaustive mode for lengths <= 4.
+MODEL_MAP = {
+    "sparse/numba_backend/_coo/common.py": {
+        "sort": "a67732f132140f85", "_sort_coo": "87278716d4bdddc0", "argmax": "938b56abe286e5d7", "argmin": "9d586be5f4589958",
+        "_arg_minmax_common": "c3182e22269559ff", "_compute_minmax_args": "0a67565e89c2cd2a", "unique_counts": "cfe4a4dd161ac8b7",
+        "unique_values": "194a4cdeb31d7d52", "argwhere": "6535c37648e62673", "where": "66b5a9081c30c105",
+        "_validate_coo_input": "67febdb469f62d4d"},
+    "sparse/numba_backend/_coo/core.py": {"COO.nonzero": "65573660953205a4"},
+}
 OPS = ("sort", "argmax", "argmin", "unique_values", "unique_counts", "nonzero", "argwhere", "where")
 
 
@@ -277,7 +287,7 @@ def build(case):
     import sparse
 
     shape = tuple(case["shape"])
-    dt = np.dtype(case.get("dtype", "int64"))
+    dt = np.dtype(case.get("dtype", "int64"))  # int64: the values; float64: halves of the values; bool: values are 0/1
     scale = 0.5 if dt.kind == "f" else 1
     coords = np.array(case["coords"], dtype=np.intp).reshape(len(case["data"]), len(shape)).T
     data = (np.array(case["data"], dtype=np.int64) * scale).astype(dt)
@@ -602,9 +612,12 @@ def rand_array_case(rng, allow_zero_extent=True):
             shape[int(rng.integers(nd))] = 0
         if int(np.prod(shape, dtype=np.int64)) <= 120:
             break
+    dtype = str(rng.choice(["int64"] * 8 + ["float64", "bool"]))
     lo = int(rng.integers(-3, 2))
     hi = int(rng.integers(lo, 4))
     fill = int(rng.choice([0, 0, 0, lo - 1, hi + 1, int(rng.integers(lo, hi + 1)), int(rng.integers(-4, 5))]))
+    if dtype == "bool":  # conditions, the usual argument of where/nonzero/argwhere
+        lo, hi, fill = 0, 1, int(rng.integers(0, 2))
     d = gen.dense(rng, tuple(shape), fill, lo=lo, hi=hi)
     stored = d != fill
     if rng.random() < 0.3:  # explicitly stored fill values ("every stored subset")
@@ -612,7 +625,7 @@ def rand_array_case(rng, allow_zero_extent=True):
     co = np.argwhere(stored)
     fmt = str(rng.choice(["coo", "coo", "coo", "gcxs", "dok"]))
     case = {"shape": shape, "fill": fill, "coords": co.tolist(), "data": d[stored].tolist(), "format": fmt,
-            "dtype": "float64" if rng.random() < 0.12 else "int64"}
+            "dtype": dtype}
     if fmt == "gcxs" and nd >= 2:
         ch = gen.compressed_axes_choices(nd)
         case["compressed_axes"] = [int(a) for a in ch[int(rng.integers(len(ch)))]]
@@ -836,6 +849,14 @@ def run(ctx):
     if any(v is None for v in w.values()):
         ctx.broke("witness-replay", f"a witness could not be replayed: {w}")
         w = {k: bool(v) for k, v in w.items()}
+    drift = []
+    for rel, names in MODEL_MAP.items():
+        try:
+            now = core.source_fingerprint(rel, list(names))
+        except Exception as e:  # noqa: BLE001
+            now = {n: f"unreadable: {type(e).__name__}" for n in names}
+        drift += [f"{rel}:{n}" for n in names if now.get(n) != names[n]]
+    ctx.notes["source_drift"] = drift
     rng = gen.rng_for(ctx.seed, PID)
     batch = Batch(ctx, w)
     for case in corpus():
@@ -844,7 +865,7 @@ def run(ctx):
     leg_a_random(ctx, rng, 60 if ctx.quick else 600, w)
     leg_c_random(ctx, rng, 110 if ctx.quick else 1500, batch)
     if ctx.quick:
-        box(ctx, rng, batch, lengths=[0, 1, 2, 3, 4], fills=[-3, 0, 1, 3], sample=250)
+        box(ctx, rng, batch, lengths=[0, 1, 2, 3, 4], fills=[-3, 0, 1, 3], sample=None if drift else 250)
         ctx.cov["exhaustive"] = False
     else:
         box(ctx, rng, batch, lengths=[0, 1, 2, 3, 4, 5], fills=[-3, -2, -1, 0, 1, 2, 3], sample=None)
@@ -852,7 +873,7 @@ def run(ctx):
     ctx.cov["rule"] = (
         "corpus (witnesses of the findings; fill above/below/between/tied; rows empty/partly/fully filled; negative axes; keepdims; "
         "formats) + seeded random arrays of rank 1-4 (extents {0..5}, values in a random window of [-3,3], fill below/inside/above it, "
-        "30 % with explicitly stored fill values, COO/GCXS/DOK, 12 % float halves) x every C10 function and option + the box of rows "
+        "30 % with explicitly stored fill values, COO/GCXS/DOK, 10 % float halves, 10 % bool) x every C10 function and option + the box of rows "
         "(thorough: EVERY row of length <= 5 over values {-2..2} x fill {-3..3} x every stored subset; quick: a sample of it) through both "
         "kernels, the model, the theorem statements and the public functions.  Non-trivial = the array/row has at least one element; "
         "distinct by content hash of (family, case).")
